@@ -11,6 +11,9 @@ CONSTANTS
   Cutoffs <- MC_CutAll
   DefaultCutoff = 10
   MainLogs <- MC_MainLogs
+  MainGate = "log"
+  MainAlways <- MC_MainAlways
+  MainKinds <- MC_KindsBoth
   MaxHist = 10
   MaxWrites = 10
   MaxMains = 2
